@@ -14,6 +14,7 @@
   fixpoint loops of the model are fuelled).
 -/
 import Mwp.Lemmas.FuncRefine
+import Mwp.Lemmas.FuncTotal
 namespace Mwp.Props.C02
 open Mwp Mwp.Analysis Mwp.Spec Mwp.Refine
 
@@ -81,6 +82,20 @@ theorem first_choice_is_a_derivation (node : Node) (stop : Bool) (r : FuncRes)
   refine ⟨ch, f, hc, h1, ?_⟩
   have A := hA r.variables hnd hsub f (valid_of_vec hl h3) _ (relabel_relab cmd f)
   exact A.some_iff_fin.2 ((hval f hl h3).1 h2)
+
+/-- **C02, without any hypothesis about the run.**  On every supported function the analysis returns
+    a result in either mode (`Mwp.func_total`: the fixpoint loop stops, no error branch is reachable),
+    both modes give the same verdict, and the verdict is "infinite" exactly when the calculus has no
+    derivation at any choice vector. -/
+theorem verdict_exists_and_is_exact (node : Node) (hok : FuncOk node = true)
+    (cmd : Cmd) (hd : desugarFunc node = some cmd) :
+    ∃ r1 r2, func node true = .ok r1 ∧ func node false = .ok r2 ∧ r1.infinite = r2.infinite ∧
+      (r1.infinite = true ↔
+        ∀ c : Choice, c.length = cmd.arity → (∀ v ∈ c, v < 3) → sem r1.variables cmd 0 c = none) := by
+  obtain ⟨r1, h1⟩ := func_total node true hok cmd hd
+  obtain ⟨r2, h2⟩ := func_total node false hok cmd hd
+  exact ⟨r1, r2, h1, h2, verdict_mode_independent node hok r1 r2 h1 h2,
+    infinite_iff_no_derivation node true r1 hok h1 cmd hd⟩
 
 /-- the side condition `FuncOk` follows from checks on the syntax tree alone -/
 theorem funcOk_from_syntax (d : Node) (l : List Node) (cs : List Cmd) (hdl : desugarL l = some cs)
